@@ -287,7 +287,13 @@ theorem putCore_evsOk {fs : FS} (p : PutIn) (hb : isBlockName p.h = true) (hh : 
     intro w hw
     obtain ⟨h1, h2⟩ := hv w hw
     exact ⟨h1 ▸ hb, fun he => by rw [h2 he, hh, h1]⟩
-  have hatt := attempts_evsOk hash p.attempts hws
+  have hws' : ∀ w ∈ p.effAttempts, WBOk hash w := by
+    intro w hw
+    unfold PutIn.effAttempts at hw
+    split at hw
+    · simp at hw
+    · exact hws w hw
+  have hatt := attempts_evsOk hash p.effAttempts hws'
   unfold putCore
   simp only
   split
